@@ -54,6 +54,10 @@ func (o *objectIncludeStrategy) evaluate(m *MethodEvaluator) error {
 		return nil
 	}
 
+	if base.IsInheritanceCycle(classNode, parentNode) {
+		return nil
+	}
+
 	base.ClassInheritanceMap[classNode] =
 		append(base.ClassInheritanceMap[classNode], parentNode)
 
